@@ -495,7 +495,9 @@ fn judge(tokens: &[Token], p: &Piped, intended: Option<&R>) -> Result<(), String
         let want = eval(&p.unfolded, k, &mut big);
         if want.is_finite() {
             let got = eval(&p.folded, k, &mut big);
-            if !close(got, want, big) {
+            // the folding rules only remove operations that are exact in binary64 (x+0, x-0, 0-x, x/1, x^0, 0*x for a
+            // finite x, 0^n), so folded and unfolded values agree exactly — no scale-dependent tolerance here
+            if !(got == want || (got - want).abs() <= 1e-14 * want.abs()) {
                 return Err(format!("folding changed the value at point {k}: {want:?} became {got:?}"));
             }
         }
@@ -712,6 +714,15 @@ enum G {
 }
 
 fn gen_num(rng: &mut Rng) -> String {
+    // literals of every magnitude: a value test with a tolerance instead of `== 0` / `== 1` only shows there
+    if rng.chance(1, 12) {
+        return match rng.below(4) {
+            0 => format!("0.{}{}", "0".repeat(15 + rng.below(12) as usize), rng.range(1, 9)),
+            1 => format!("{}{}", rng.range(1, 9), "0".repeat(15 + rng.below(6) as usize)),
+            2 => format!("0.{}", "9".repeat(1 + rng.below(14) as usize)),
+            _ => format!("1.{}1", "0".repeat(1 + rng.below(12) as usize)),
+        };
+    }
     match rng.below(8) {
         0 => "0".into(),
         1 => "1".into(),
@@ -953,6 +964,19 @@ pub fn generate(seed: u64, thorough: bool, emit: &mut dyn FnMut(String)) {
         let mut want = String::new();
         intended(&g, &mut want);
         emit(format!("str {} | {}", req_string(&text), want.trim_end()));
+    }
+    // value tests of the folder at the edges: products with a tiny (non-zero) factor, divisors and exponents next to
+    // 1 and 0
+    for z in [15usize, 16, 17, 20, 25] {
+        let tiny = format!("0.{}1", "0".repeat(z));
+        let huge = format!("1{}", "0".repeat(z + 1));
+        for text in [
+            format!("{tiny} * {huge}"), format!("{huge} * {tiny}"), format!("{tiny}x * {huge}"), format!("({tiny} + 0) * {huge}"),
+            format!("x ^ {tiny} * 2"), format!("{tiny} ^ 0"), format!("0 ^ {tiny}"), format!("x / 1.{}1", "0".repeat(z.min(14))),
+            format!("x / 0.{}", "9".repeat(z.min(15))), format!("x + {tiny}"), format!("{tiny} - x"), format!("x - {tiny}"),
+        ] {
+            emit(format!("str {}", req_string(&text)));
+        }
     }
     // arbitrary strings: totality of lexer and parser
     let m = if thorough { 50_000 } else { 3000 };
